@@ -29,7 +29,7 @@ ASSUMPTIONS = [
 BUDGET = {"quick": 75, "thorough": 900}
 ROUNDS = {"thorough": 8}
 FLOORS = {"pairs_compared": {"quick": 1500, "thorough": 15000}, "rerootings": {"quick": 200, "thorough": 2000},
-          "relations": 17}
+          "relations": 19}
 
 
 def cases(tier, seed):
@@ -155,6 +155,18 @@ def orbit(case):
     v = copy.deepcopy(case)
     v["aln_file"] = {"wrap": int(rng.choice([0, 1, 3, 7, 60])), "blank": bool(rng.random() < 0.5)}
     out.append(("alignment-file", v, 1.0))
+    # 6e the site pattern restricted to "all columns" written as several pieces (a rotation, odd and even columns): the same data
+    ncols_ = len(next(iter(case["seqs"].values())))
+    if case["datatype"]["kind"] != "codon" and ncols_ >= 2:
+        v = copy.deepcopy(case)
+        k_ = int(rng.integers(1, ncols_))
+        v["indices"] = ["%d:,:%d" % (k_, k_), "::2,1::2", "1::2,::2"][int(rng.integers(3))]
+        out.append(("indices-in-pieces", v, 1.0))
+    # 6f an unrooted tree whose Newick carries a length on the root node itself (as many programs write it): there is no such branch
+    if unrooted and case.get("bl_mode", "keep") == "keep":
+        v = copy.deepcopy(case)
+        v["newick"] = case["newick"].rstrip().rstrip(";") + ":%s;" % ["0.0", "0.25", "1.5"][int(rng.integers(3))]
+        out.append(("root-length", v, 1.0))
     # 6d discrete trait: one symbol per taxon, given as a one-column alignment and as a taxon attribute (AttributePattern), tip partials and tip states
     if case["datatype"]["kind"] == "general":
         va = copy.deepcopy(case)
